@@ -201,6 +201,29 @@ Section GroupSim.
       subst. assert (m = r) by (now apply E2). assert (r = a) by (now apply E1). congruence.
   Qed.
 
+  Lemma try_consume_rel opts : forall ex a1 a2, R a1 a2 ->
+    match try_consume D opts ex a1, try_consume D opts ex a2 with
+    | Some (m1, b1), Some (m2, b2) => b1 = b2 /\ R m1 m2 /\ (m1 = a1 <-> m2 = a2)
+    | None, None => True
+    | _, _ => False
+    end.
+  Proof.
+    induction opts as [|o opts IH]; intros ex a1 a2 HR; cbn [try_consume]; [exact I|].
+    destruct (mem_nat o ex); [now apply IH|]. pose proof (Hopt o a1 a2 HR) as Ho.
+    destruct (m_opt D o a1 false) as [[[m1 o1] b1]|], (m_opt D o a2 false) as [[[m2 o2] b2]|]; try contradiction.
+    - destruct Ho as (-> & HR' & Hu). destruct b2 as [|b bs]; [now apply IH | auto].
+    - now apply IH.
+  Qed.
+
+  Lemma try_env_rel opts : forall ex a1 a2, R a1 a2 -> try_env D opts ex a1 = try_env D opts ex a2.
+  Proof.
+    induction opts as [|o opts IH]; intros ex a1 a2 HR; cbn [try_env]; [reflexivity|].
+    destruct (mem_nat o ex); [now apply IH|]. pose proof (Hopt o a1 a2 HR) as Ho.
+    destruct (m_opt D o a1 false) as [[[m1 o1] b1]|], (m_opt D o a2 false) as [[[m2 o2] b2]|]; try contradiction.
+    - destruct Ho as (-> & HR' & Hu). destruct b2 as [|b bs]; [destruct (oi_fromenv D o); [reflexivity | now apply IH] | now apply IH].
+    - now apply IH.
+  Qed.
+
   Lemma try_opts_rel opts : forall ex a1 a2, R a1 a2 ->
     match try_opts D opts ex a1, try_opts D opts ex a2 with
     | Some (m1, b1, e1), Some (m2, b2, e2) => b1 = b2 /\ e1 = e2 /\ R m1 m2 /\ (m1 = a1 <-> m2 = a2)
@@ -208,17 +231,21 @@ Section GroupSim.
     | _, _ => False
     end.
   Proof.
-    induction opts as [|o opts IH]; intros ex a1 a2 HR; cbn [try_opts]; [exact I|].
-    destruct (mem_nat o ex); [now apply IH|]. pose proof (Hopt o a1 a2 HR) as Ho.
-    destruct (m_opt D o a1 false) as [[[m1 o1] b1]|], (m_opt D o a2 false) as [[[m2 o2] b2]|]; try contradiction.
-    - destruct Ho as (-> & HR' & Hu). auto.
-    - now apply IH.
+    intros ex a1 a2 HR. unfold try_opts. pose proof (try_consume_rel opts ex a1 a2 HR) as Hc.
+    rewrite (try_env_rel opts ex a1 a2 HR).
+    destruct (try_consume D opts ex a1) as [[m1 b1]|], (try_consume D opts ex a2) as [[m2 b2]|]; try contradiction.
+    - destruct Hc as (-> & HR' & Hu). auto.
+    - destruct (try_env D opts ex a2); [|exact I]. repeat split; auto.
   Qed.
 
   Lemma try_opts_none_all opts : forall ex a, (forall o, m_opt D o a false = None) -> try_opts D opts ex a = None.
   Proof.
-    induction opts as [|o opts IH]; intros ex a H; cbn [try_opts]; [reflexivity|].
-    destruct (mem_nat o ex); [now apply IH|]. rewrite (H o). now apply IH.
+    intros ex a H. unfold try_opts.
+    assert (Hc : try_consume D opts ex a = None).
+    { induction opts as [|o opts IH]; cbn [try_consume]; [reflexivity|]. destruct (mem_nat o ex); [exact IH|]. now rewrite (H o). }
+    assert (He : try_env D opts ex a = None).
+    { clear Hc. induction opts as [|o opts IH]; cbn [try_env]; [reflexivity|]. destruct (mem_nat o ex); [exact IH|]. now rewrite (H o). }
+    now rewrite Hc, He.
   Qed.
 
   Lemma try_rel opts ex a1 a2 : R a1 a2 ->
